@@ -266,7 +266,7 @@ def run(tier):
             links.append((str(n), link))
     rcc = run_commands(cc, wd, workers=16, timeout_ms=120000) if cc else {}
     failed_cc = {}
-    for cid, r in rcc.items():
+    for cid, r in sorted(rcc.items()):
         if r["rc"] != 0:
             failed_cc[int(cid.split(":")[0])] = (r.get("stderr_head", "") + r["stderr"])[-600:]
     rl = run_commands([l for l in links if int(l[0]) not in failed_cc], wd, workers=16, timeout_ms=120000) if links else {}
